@@ -5,6 +5,10 @@ use cachelito_async_macros::cache_async;
 use cachelito_macros::cache;
 
 pub fn body2(a: u32, b: String) -> u64 { 0 }
+pub fn body1(a: u32) -> u64 { 0 }
+pub fn body3(a: u32, b: String, c: u32) -> u64 { 0 }
+pub fn body_v(a: Vec<u32>, b: Vec<u32>) -> u64 { 0 }
+pub fn body_t(p: (u32, u32), c: u32) -> u64 { 0 }
 pub fn body_res(a: u32) -> Result<u64, String> { Ok(0) }
 pub fn stale(key: &String, v: &u64) -> bool { false }
 pub fn keep(key: &String, v: &u64) -> bool { true }
@@ -88,7 +92,51 @@ impl Recv {
 
     #[cache_async(limit = 8)]
     pub async fn am_args(&self, a: u32, b: String) -> u64 { body2(a, b) }
+
+    // arity-specific shapes of the key builders: receiver + exactly one argument, receiver only (async), thread scope
+    #[cache(limit = 8)]
+    pub fn m_one(&self, a: u32) -> u64 { body1(a) }
+
+    #[cache(scope = "thread", limit = 8)]
+    pub fn tm_one(&self, a: u32) -> u64 { body1(a) }
+
+    #[cache_async(limit = 8)]
+    pub async fn am_one(&self, a: u32) -> u64 { body1(a) }
+
+    #[cache_async(limit = 8)]
+    pub async fn am_noargs(&self) -> u64 { 0 }
 }
+
+// ---- argument shapes: one argument, three arguments, container arguments (possibly empty), destructuring patterns
+#[cache(limit = 8)]
+pub fn g_one(a: u32) -> u64 { body1(a) }
+
+#[cache_async(limit = 8)]
+pub async fn a_one(a: u32) -> u64 { body1(a) }
+
+#[cache(limit = 8)]
+pub fn g_three(a: u32, b: String, c: u32) -> u64 { body3(a, b, c) }
+
+#[cache_async(limit = 8)]
+pub async fn a_three(a: u32, b: String, c: u32) -> u64 { body3(a, b, c) }
+
+#[cache(limit = 8)]
+pub fn g_vecs(a: Vec<u32>, b: Vec<u32>) -> u64 { body_v(a, b) }
+
+#[cache(scope = "thread", limit = 8)]
+pub fn t_vecs(a: Vec<u32>, b: Vec<u32>) -> u64 { body_v(a, b) }
+
+#[cache_async(limit = 8)]
+pub async fn a_vecs(a: Vec<u32>, b: Vec<u32>) -> u64 { body_v(a, b) }
+
+#[cache(limit = 8)]
+pub fn g_tuple_pat((x, y): (u32, u32), c: u32) -> u64 { body_t((x, y), c) }
+
+#[cache(scope = "thread", limit = 8)]
+pub fn t_tuple_pat((x, y): (u32, u32), c: u32) -> u64 { body_t((x, y), c) }
+
+#[cache_async(limit = 8)]
+pub async fn a_tuple_pat((x, y): (u32, u32), c: u32) -> u64 { body_t((x, y), c) }
 
 #[cache(limit = 8)]
 pub fn g_noargs() -> u64 { 0 }
